@@ -1,6 +1,38 @@
 """Per-property claim texts for MANIFEST.json (edited by hand; tools/gen_manifest.py renders it)."""
 
 CHECKS = {
+ "C02": dict(
+   text="Narrow claim. The real DailyBaselineData constructor runs end-to-end on symbolic frames (incl. the electricity zero->NaN path reached by the solver choosing the value 0): caller's frame cell-identical afterwards, .df hands out independent copies. DailyModel.predict/BillingModel.predict(aggregated) on symbolic frames: data object's frame and stored parameters unchanged; predict(A) after predict(B) term-identical to a fresh twin (2-call history). fit()/predict() wrappers of the three families (numerics stubbed): the data object's warnings/disqualification lists are the same objects with the same content afterwards for every metric value.",
+   note="hourly model state (sklearn scalers, ElasticNet, temporal-cluster table) and hourly data classes cannot carry symbolic values: outside the claim, as are histories longer than two calls.",
+   ref="DESIGN.md 3 C02"),
+ "C08": dict(
+   text="The real data classes (DailyBaselineData; BillingBaselineData.from_series) and downsample_and_clean_daily_data run end-to-end (as_freq through 1-minute atoms, clean_billing_data, compute_minimum_granularity) on symbolic readings: every non-final local day equals the sum of its readings (15/30/60-minute, 23-hour DST day), a day covered > 1/2 is scaled by 1/coverage, <= 1/2 is missing (solver-chosen layouts incl. exactly half), daily readings pass through, every valid billing period's daily values add up to the billed amount and off-cycle periods are dropped. Sums are decided as linear identities with extracted rational coefficients (tolerance 1e-9 on each coefficient).",
+   note="calendars/zones enumerated; usage values and missing layout solver-quantified; final day/period excluded as the property states; known finding C08-offcycle-dst excluded by region.",
+   ref="DESIGN.md 3 C08"),
+ "C09": dict(
+   text="The real DailyBaselineData constructor and from_series (UTC feed vs local meter) run end-to-end on symbolic hourly and half-hourly temperature feeds over a DST day: each meter day's temperature equals the mean of its non-missing readings for every value, and is missing exactly when half or fewer readings are present (solver-chosen layouts none/1/half-1/half/half+1).",
+   note="feeds/offsets/zones enumerated; meters whose day starts at another hour and the billing data class are not covered; known finding C09-final-reading-dropped (last day) excluded by region.",
+   ref="DESIGN.md 3 C09"),
+ "C10": dict(
+   text="Count-based criteria (span 329-365, three 90% rules) and the six baseline/reporting drivers run on criteria objects whose day counts are symbolic ints: reported disqualifications == exactly the violated criteria for all counts; frame-based computations (_compute_valid_meter_temperature_days with day_counts, negative usage, no_data, monthly coverage, extreme values) run on real frames with symbolic cells / solver-chosen NaN states; real constructors accept a catalogue of well-formed daily frames with the expected verdicts; thorough: QF_FP lemma k/n<0.9 <=> 10k<9n.",
+   note="frame-based checks are stubs (free booleans) in the driver cases; acceptance of arbitrary frames is an enumerated catalogue; frequency detection and extreme values on year-long data outside the claim.",
+   ref="DESIGN.md 3 C10"),
+ "C14": dict(
+   text="The repository's Python validators run on model_construct'ed settings trees with symbolic/alternative field values: the developer-mode lock rejects <=> developer_mode off and some developer field (top level or nested) differs, for every developer field of the daily/legacy/billing trees one at a time and all numeric fields at once; every cross-field validator (alpha_final, final_bounds_scalar, initial_step_percentage, reduce_splits_num_std, season/weekday maps, temperature bins, edge bins, adaptive weights) rejects exactly the documented combinations. Concretely: default objects equal the pinned approved-constants table and a 200-call constructor catalogue (each developer field, key case/whitespace variants, dict input, developer_mode on/off).",
+   note="pydantic-core (ge/le/enum/normalisation) is only exercised concretely; oracles/approved_constants.json is a regression oracle captured at the pinned commit.",
+   ref="DESIGN.md 3 C14"),
+ "C16": dict(
+   text="BaselineMetrics/ColumnMetrics computed fields, _safe_divide, ReportingMetrics and DailyModel._get_error_metrics run on symbolic observed/predicted columns with solver-chosen NaN states (2-3 rows, thorough 4) and a symbolic parameter count: n, sse, mae, mbe, rmse^2*n==sse, rmse_adj^2*ddof==sse, ddof=max(n-p,1), n'=n(1-rho)/(1+rho), r2=corr^2, adjusted r2, every ratio field (value*den==num when the denominator is safely positive, undefined otherwise), savings and the ASHRAE-14 uncertainty formula.",
+   note="pandas autocorr/corr and scipy t quantile are contract stubs (fresh symbols); skew/kurtosis not evaluated; known finding C16-safe-divide excluded by region.",
+   ref="DESIGN.md 3 C16"),
+ "C18": dict(
+   text="compute_temperature_bin_features with symbolic temperature and k<=4 (6) symbolic endpoints: bins sum to T and fill in order up to their width, NaN stays NaN; the fit/prediction feature processors with symbolic T, both occupancy modes and all 64 subsets of the candidate endpoints: the active mode's bins sum to T, the other mode's are zero; segment weights for every month (first/last local hour, 3 zones, 4 segmentation types) and the month->fitted-segment mapping; the real CalTRACKHourlyModel.predict with stub segment models returning symbols: each hour predicted only by its own month's model across every month boundary; hour_of_week for all 168 values.",
+   note="CalTRACKSegmentModel.predict (patsy/statsmodels) is outside the claim; months/zones/hours are finite domains enumerated by solver forks.",
+   ref="DESIGN.md 3 C18"),
+ "C20": dict(
+   text="The real get_baseline_data/get_reporting_data run on a series whose n<=4 (6) labels are symbolic strictly increasing instants, with symbolic values/NaN states, cut instant, max_days, overshoot tolerance and every option combination: contiguous own-copy slice, no row beyond the cut, max_days window (gap-adjusted) respected, nearest-boundary rule with ties, values unchanged except the blanked final row, input untouched, gap warnings, dedicated error for empty/all-NaN selections. Every explored path's witness is run through the real functions on real pandas and must agree with the shim (6.9k paths validated).",
+   note="pandas label slicing/get_indexer/index.min/max/dropna/iloc are modelled by symv/symtime.py (validated per path); timezone handling not modelled; known findings C20-gap-not-reported and C20-overshoot-without-max_days.",
+   ref="DESIGN.md 3 C20"),
  "C01": dict(
    text="Solver shows, for every coefficient vector of each of the 7 stored shapes, every temperature limit set and every temperature (inside and outside the fitted range), that DailyModel._predict_submodel (inherited unchanged by BillingModel) equals the documented piecewise formula evaluated from the JSON fields alone, that predicted_unc is the stored f_unc, that the vector form round-trips (from_np_arrays(to_np_array)), and that the segment limits influence the result only through the documented end-pinning. At every path witness the public API (DailyModel/BillingModel from_dict -> to_json -> from_json) is additionally exercised concretely: identical document, bit-identical predictions, timezone/warnings/disqualifications kept.",
    note="pydantic-core validation/serialisation and json float repr are C-level: exercised concretely per path witness, not quantified; hourly and CalTRACK-hourly families and settings profiles are outside the claim; floats modelled as reals; known finding C11-bp-at-Tmax excluded by region.",
@@ -41,9 +73,9 @@ CHECKS = {
 
 _NOT_BUILT = "check not built yet in this session (planned, see DESIGN.md 9)"
 NA = {
- "C02": _NOT_BUILT, 
- "C08": _NOT_BUILT, "C09": _NOT_BUILT, "C10": _NOT_BUILT, "C14": _NOT_BUILT,
- "C16": _NOT_BUILT, "C18": _NOT_BUILT, "C20": _NOT_BUILT,
+ 
+ 
+ 
  "C03": "reproducibility quantifies over process histories, thread counts, JIT caches and RNG state of NLopt/scikit-learn/BLAS behind FFI; none of that is a function of a symbolic input, so solver-based checking of the Python code cannot decide it (DESIGN.md 4)",
  "C15": "recovery of a generating curve is a statement about the optimum found by compiled NLopt DIRECT+SBPLX over a 365-point robust loss; with the optimiser as a nondeterministic stub the property is false by construction, and the optimiser itself cannot be encoded (DESIGN.md 4)",
  "C17": "every in-scope hourly input takes the autocorrelation interpolation path (numpy.ma, argpartition, pandas interpolate on float arrays) which cannot carry symbolic values; stubbing it leaves nothing of the property (DESIGN.md 4)",
